@@ -511,6 +511,8 @@ func c05Apply(b *cty.RefinementBuilder, k c05Call) (nb *cty.RefinementBuilder, p
 }
 
 func simC05Histories(c *Ctx) {
+	c05OrderOpen = false
+	c.Mute = c05MuteIfOrderOpen
 	// ---- start value
 	t := c05StartTypes[0]
 	if c.G(3) != 0 {
@@ -1274,14 +1276,37 @@ func simC05KnownSets(c *Ctx) {
 
 // numCmp is go-cty's order on numbers as documented: two numbers with the same exact integer
 // value or the same shortest decimal rendering are equal (CHANGELOG 1.9.0) and equal numbers are
-// never ordered; unequal numbers are ordered by value. (The C05 model reasons with this order:
-// a low-precision number may lie on the other side of a third number than its own rendering
-// does, and which of the two the refinement code goes by is not something the property states.)
+// never ordered; unequal numbers are ordered by value. "By value" is open in one case: a number held at
+// low precision may lie on the other side of a third number than its own shortest rendering does
+// (0.3 held in 24 bits is 0.3000000119..., which is above 0.30000000000000004, while its rendering
+// "0.3" is below it), and whether the binary values or the renderings that equality compares decide is
+// not something the property states (go-cty went by the binary values, and goes by the renderings since
+// the repair of the trichotomy defect). The model notes when it meets such a pair: from then on the run's
+// order-dependent judgments are not raised (c05MuteIfOrderOpen).
 func numCmp(a, b *big.Float) int {
 	if floatKey(a) == floatKey(b) {
 		return 0
 	}
-	return a.Cmp(b)
+	byValue := a.Cmp(b)
+	if !a.IsInf() && !b.IsInf() && a.Prec() != b.Prec() {
+		if byText := canonFloat(a).Cmp(canonFloat(b)); byText != byValue {
+			c05OrderOpen = true
+			return byText
+		}
+	}
+	return byValue
+}
+
+// c05OrderOpen: the model compared two unequal numbers whose binary values and shortest renderings are
+// ordered differently (reset at the start of every run).
+var c05OrderOpen bool
+
+var c05OrderDependent = map[string]bool{"accepted-contradiction": true, "collapsed-wrongly": true, "equals-false-admitted": true,
+	"excluded-admitted": true, "included-excluded": true, "range-bound": true, "rejected-consistent": true, "widened": true,
+	"range-depends-on-order": true, "unknown-equals-true": true}
+
+func c05MuteIfOrderOpen(property, class string) bool {
+	return property == "C05" && c05OrderOpen && c05OrderDependent[class]
 }
 
 func floatKey(f *big.Float) string {
